@@ -211,6 +211,20 @@ def contracts():
                '(k in self._data) == (k in OLD__data) and implies('
                'k in OLD__data, self._data[k] == OLD__data[k])))' % NORM],
       env={})
+    # a layer built WITH data: the data is the variable `$` (= `$1`) of the
+    # layer, stored under the one key every read / write / delete uses
+    c('Context.__init__', name='contexts.Context.__init__/data',
+      params=dict(self=obj('yaql.language.contexts.Context'),
+                  parent_context=None, data=TVal, convention=TVal),
+      requires=['not (data is NV)'], env={'NV': NV},
+      ensures=['len(self._data) == 1 and self._data["$1"] == data',
+               'len(self._functions) == 0',
+               'self._parent_context is None'])
+    c('Context.__init__', name='contexts.Context.__init__/no-data',
+      params=dict(self=obj('yaql.language.contexts.Context'),
+                  parent_context=None, convention=TVal), env={'NV': NV},
+      ensures=['len(self._data) == 0', 'len(self._functions) == 0',
+               'self._parent_context is None'])
     c('Context.__delitem__', params=dict(self=ctx, name=TStr),
       raises={'KeyError': 'not (%s in OLD__data)' % NORM},
       ensures=['%s in OLD__data' % NORM,
